@@ -177,6 +177,23 @@ pub fn c03(ctx: &Ctx, acc: &mut Acc) {
                 any = true;
             }
         }
+        // eta-expanded variant: argument shapes the translation never emits (must itself be well-typed)
+        let mut rng = crate::rng::Rng::new(seed ^ 0xE7A);
+        let (variant, n) = crate::core_eta::expand(&core, &mut rng);
+        if n > 0 {
+            if ty_core::check_prog(&variant).is_ok() {
+                acc.add("eta_expansions_applied", n);
+                for args in case.args.iter().take(1) {
+                    acc.evaluations += 1;
+                    acc.count("eta_variants_judged");
+                    if c03_judge(acc, &variant, args, &case.src, &format!("gen_fun seed={seed} eta-expanded Core variant ({n} expansions, rng {:#x})", seed ^ 0xE7A)) {
+                        any = true;
+                    }
+                }
+            } else {
+                acc.count("eta_variants_ill_typed_by_construction_error");
+            }
+        }
         if any {
             acc.nontrivial(case_hash(&case));
             if acc.samples.len() < 3 {
@@ -494,6 +511,24 @@ pub fn c12(ctx: &Ctx, acc: &mut Acc) {
             acc.nontrivial(case_hash(&case));
             if acc.samples.len() < 2 {
                 acc.sample(J::obj().with("src", J::s(case.src.clone())));
+            }
+        }
+        // accepted survivors of token mutations: programs the generator did not design
+        let mut rng = crate::rng::Rng::new(seed ^ 0xC12);
+        for _ in 0..4 {
+            let (m, what) = crate::mutate::mutate_tokens(&case.src, &mut rng);
+            if m == case.src {
+                continue;
+            }
+            acc.evaluations += 1;
+            let before = acc.counters.get("accepted_programs").copied().unwrap_or(0);
+            let ok = c12_judge(acc, &m, &format!("gen_fun seed={seed} token mutation: {what}"));
+            let after = acc.counters.get("accepted_programs").copied().unwrap_or(0);
+            if after > before {
+                acc.count("mutants_accepted_by_the_checker");
+                if ok {
+                    acc.nontrivial(crate::rng::hash_str(&m));
+                }
             }
         }
     }
